@@ -452,22 +452,46 @@ func c17R5(c *Ctx) {
 	if fn := c.SSA(r, pPipe, "(*Service).Init"); fn != nil {
 		get := c.Fn(r, pPipe, "(*Instance).GetStatus")
 		set := c.Fn(r, pPipe, "(*Instance).SetStatus")
+		// the live statuses: Running, and Recovering — a pipeline parked in its recovery back-off (up to minutes) when
+		// the process dies or the shutdown wait expires is stored as Recovering; nothing restarts it unless it is
+		// found again as SystemStopped (F37)
+		recovering := c.W.LookupObj(pPipe, "StatusRecovering")
 		g := kit.NewGates()
+		perStatus := map[string][]kit.Edge{}
 		for _, call := range kit.CallsTo(fn, Set(get)) {
 			v := call.Value()
-			g.AddEdges(kit.CmpEdges(fn, func(b *ssa.BinOp) (bool, bool) {
-				if b.Op == token.EQL && b.X == ssa.Value(v) && isConstObj(b.Y, running) {
-					return true, true
-				}
-				return false, false
-			}), "")
+			for name, obj := range map[string]types.Object{"StatusRunning": running, "StatusRecovering": recovering} {
+				o := obj
+				es := kit.CmpEdges(fn, func(b *ssa.BinOp) (bool, bool) {
+					if o != nil && ((kit.IsVar(b.X, v) && isConstObj(b.Y, o)) || (kit.IsVar(b.Y, v) && isConstObj(b.X, o))) {
+						switch b.Op {
+						case token.EQL:
+							return true, true
+						case token.NEQ:
+							return true, false
+						}
+					}
+					return false, false
+				})
+				g.AddEdges(es, "")
+				perStatus[name] = append(perStatus[name], es...)
+			}
 		}
 		n := 0
 		for _, call := range kit.CallsTo(fn, Set(set)) {
 			a := call.Common().Args
 			if len(a) == 2 && isConstObj(a[1], sysStopped) {
 				n++
-				c.Dominated(r, "pipeline.Init: Running -> SystemStopped", []ssa.Instruction{call}, g, "the GetStatus()==StatusRunning edge")
+				c.Dominated(r, "pipeline.Init: Running -> SystemStopped", []ssa.Instruction{call}, g, "the GetStatus()==StatusRunning / StatusRecovering edge")
+				for _, name := range []string{"StatusRunning", "StatusRecovering"} {
+					reach := false
+					for _, e := range perStatus[name] {
+						if kit.EdgeReaches(e, call, nil) {
+							reach = true
+						}
+					}
+					c.R.Check(reach, r, "pipeline.Init: a stored "+name+" pipeline is rewritten to SystemStopped", c.Pos(call.Pos()), "ok", "pipeline.Service.Init does not convert a stored "+name+" status to SystemStopped: both lifecycle Init functions (and provisioning) resume SystemStopped pipelines only, so a pipeline that was live when the server went away — running, or waiting in its recovery back-off — is never started again and stays '"+strings.ToLower(strings.TrimPrefix(name, "Status"))+"' for ever", true)
+				}
 			} else {
 				c.R.Fail(r, "pipeline.Init: status rewrite target", c.Pos(call.Pos()), "pipeline.Service.Init rewrites a status to something other than StatusSystemStopped")
 			}
